@@ -105,7 +105,11 @@ func c03ConnRead(seq []c03lib.Hex, pLen int) c03lib.Outcome {
 	cls := ""
 	for i := 0; i < len(seq)+3; i++ {
 		p := make([]byte, pLen)
+		mark := len(sc.Depths)
 		n, _, err := conn.ReadFrom(p)
+		if grows, depths := sc.StackGrows(mark); grows {
+			return c03lib.Outcome{Class: cls, Clause: "the receive loop's stack grows with every invalid datagram it skips (a flood of junk ends in a fatal stack overflow)", Detail: fmt.Sprint(depths)}
+		}
 		if err != nil {
 			if !errors.Is(err, c03lib.ErrScriptEnd) {
 				return c03lib.Outcome{Class: cls, Clause: "receive loop fails with its own error", Detail: err.Error()}
@@ -234,7 +238,11 @@ func c03Gecko(seq []c03lib.Hex, pLen int, dir []int64) c03lib.Outcome {
 	sawShort, sawMsg := false, false
 	for i := 0; i < len(sc.Queue)+2; i++ {
 		p := make([]byte, pLen)
+		mark := len(sc.Depths)
 		n, from, err := conn.ReadFrom(p)
+		if grows, depths := sc.StackGrows(mark); grows {
+			return c03lib.Outcome{Class: cls, Clause: "the receive loop's stack grows with every datagram it consumes without returning (a flood ends in a fatal stack overflow)", Detail: fmt.Sprint(depths)}
+		}
 		if err != nil {
 			if !errors.Is(err, c03lib.ErrScriptEnd) {
 				return c03lib.Outcome{Class: cls, Clause: "receive loop fails with its own error", Detail: err.Error()}
@@ -317,6 +325,18 @@ func c03Enumerate(sh *evidence.Shard) {
 		}
 		return !r.Stopped()
 	})
+	// long runs of invalid datagrams in front of a valid one
+	for _, n := range []int{3, 16, 300} {
+		for _, jl := range []int{0, 4, 8} {
+			r.Do(p, func() *c03lib.Case {
+				c := &c03lib.Case{Dec: "obfs.obfsPacketConn.ReadFrom", P: []int64{1200}}
+				for i := 0; i < n; i++ {
+					c.Seq = append(c.Seq, c03lib.Hex(c03lib.Fill(jl, "\x5a\xa5\x00\xff")))
+				}
+				return c
+			})
+		}
+	}
 
 	// --- decodeFrame -------------------------------------------------------------------------------
 	// bytes: flag 00/7f/80/ff; chunk byte idx<<4|total with total 1/2/8/9 and idx around total
